@@ -702,6 +702,7 @@ Definition borrow_asset (cfg : config) (st : state) (user lid pid : Z) (stable :
   | None => Err 5
   | Some c =>
   if negb (din =? a_id c) then Err 7 else
+  if negb (pr_in pr =? l_asset l) then Err 28 else      (* fix C08-F1: the pair's asset in is the lend position's asset *)
   lv <- (match calc_price cfg st (pr_out pr) aout with Ok v => Ok (Some v) | Err _ => Ok None | Panic => Panic end) ;;
   if (match lv with Some v => v <? MIN_USD | None => true end) then Err 8 else
   if has_borrow_for_pair st user pid then
@@ -871,6 +872,54 @@ Definition calc_all (cfg : config) (st : state) (user : Z) (es : list biter) (ip
       calc_lends cfg st1 user (map l_id ls) ipbs
   end.
 
+(* ---------- liquidationsV2: LiquidateIndividualBorrow -> UpdateLockedBorrows ---------- *)
+(* Reached through MsgLiquidateInternalKeeper{LiqType: 1}.  The DECISION (is the collateralisation
+   ratio above the liquidation threshold) is property C09's subject and enters, like the interest
+   IterateBorrowForLiq computes, as an ENV value: d = 0 not liquidatable (nothing is written),
+   1 handed over, 2 an error / 3 a panic before any write.  What the hand-over DOES to the lend books is
+   modelled as coded: the position is flagged and its interest stored, the collateral leaves the
+   pool for the auction module and its cTokens are burnt, the principal leaves the borrow totals,
+   the collateral leaves TotalLend and the lend record's AmountIn; the lend record is DELETED when
+   AmountIn is exhausted - whatever its AvailableToBorrow and its other positions (finding C08-F2).
+   CreateLockedVault / AuctionActivator write liquidation / auction state only (not projected);
+   liquidation is enabled for the app (whitelisting present). *)
+Definition AUCTION : Z := 200.                                (* module account "auctionsV2" *)
+Definition hand_over (cfg : config) (st : state) (bid d dint : Z) : outcome state :=
+  match zget (borrows st) bid with
+  | None => Err 9
+  | Some b0 =>
+      if b_liq b0 then Ok st else
+      match zget (c_pairs cfg) (b_pair b0) with
+      | None => Err 4                                         (* pairs are never deleted *)
+      | Some pr =>
+      match zget (lends st) (b_lend b0) with
+      | None => Err 1
+      | Some l =>
+          if d =? 2 then Err 42 else if d =? 3 then Panic else
+          if negb (d =? 1) then Ok st else
+          match zget (c_pools cfg) (l_pool l), cdenom_of cfg (pr_in pr) with
+          | Some pin, Some cden =>
+              let b := upd_borrow b0 (b_in b0) (b_out b0) (b_brd b0) (b_int b0 + dint) (b_res b0) true in
+              b1 <- send (bnk st) (p_mod pin) AUCTION (pr_in pr) (b_in b0) ;;
+              b2 <- burn b1 (p_mod pin) cden (b_in b0) ;;
+              S1 <- upd_borrow_stats (sstats st) (pr_out_pool pr, pr_out pr) (b_stable b0) (- b_out b0) ;;
+              S2 <- upd_lend_stats S1 (l_pool l, l_asset l) (- b_in b0) ;;
+              let lin := l_in l - b_in b0 in
+              if lin >? 0 then
+                let l1 := upd_lend l lin (l_avail l) (l_rewards l) (l_tracker l) (l_bids l) in
+                Ok (with_bank (with_books st (zset (lends st) (b_lend b0) l1) (zset (borrows st) bid b) S2) b2)
+              else
+                match pget S2 (l_pool l, l_asset l) with
+                | None => Panic
+                | Some s =>
+                    Ok (with_bank (with_books st (zdel (lends st) (b_lend b0)) (zset (borrows st) bid b)
+                                     (pset S2 (l_pool l, l_asset l) (set_s_lids s (remove_sorted (b_lend b0) (s_lids s))))) b2)
+                end
+          | _, _ => Panic
+          end
+      end end
+  end.
+
 (* ---------- messages (ValidateBasic, then the handler) ---------- *)
 Inductive op :=
 | OLend (user asset denom amt poolid app ipb : Z)
@@ -884,7 +933,8 @@ Inductive op :=
 | OCloseBorrow (user bid : Z) (e : biter)
 | OBorrowAlt (user asset poolid din ain pid : Z) (stable : bool) (dout aout app ipb : Z) (e1 e2 : biter)
 | OCalc (user : Z) (es : list biter) (ipbs : list Z)
-| OSetPrice (asset : Z) (p : option Z).            (* oracle: the active Twa, or none *)
+| OSetPrice (asset : Z) (p : option Z)             (* oracle: the active Twa, or none *)
+| OHandOver (bid d dint : Z).                      (* MsgLiquidateInternalKeeper{LiqType 1, Id bid} *)
 
 Definition step (cfg : config) (st : state) (o : op) : outcome state :=
   match o with
@@ -909,6 +959,7 @@ Definition step (cfg : config) (st : state) (o : op) : outcome state :=
   | OSetPrice a p =>
       Ok (mkSt (lends st) (borrows st) (sstats st) (bnk st) (lctr st) (bctr st)
                (match p with Some v => zset (prices st) a v | None => zdel (prices st) a end))
+  | OHandOver bid d dint => if bid =? 0 then Err 100 else hand_over cfg st bid d dint
   end.
 
 (* baseapp: the writes of a message are kept only when it returns no error and does not panic *)
@@ -1005,12 +1056,40 @@ Definition holds_C08_ltv (cfg : config) (st : state) (j : Z) : bool :=
           end
       end
   end.
-(* known-finding class 1: the position hangs on a lend position of ANOTHER asset than the pair's
-   asset in (BorrowAsset never compares lendPos.AssetID with pair.AssetIn) *)
-Definition kf_C08_1 (cfg : config) (st : state) (j : Z) : bool :=
+(* a NEW cross-pool position: besides the rule above, BorrowAsset checks the loan against the
+   bridged transit coins with the transit asset's Ltv (the bridged quantity itself is the value of
+   Ltv * collateral) *)
+Definition holds_C08_ltv_brd (cfg : config) (st : state) (j : Z) : bool :=
   match zget (borrows st) j with
   | None => false
   | Some b =>
+      match zget (c_pairs cfg) (b_pair b) with
+      | None => false
+      | Some pr =>
+          match zget (c_rates cfg) (b_brd_denom b), calc_price cfg st (b_brd_denom b) (b_brd b), calc_price cfg st (pr_out pr) (debt_of b) with
+          | Some rt, Ok vin, Ok vout => vout * P18 <=? (r_ltv rt + 1) * vin
+          | _, _, _ => false
+          end
+      end
+  end.
+(* what BorrowAsset guarantees for the position it opens *)
+Definition holds_C08_ltv_new (cfg : config) (st : state) (j : Z) : bool :=
+  match zget (borrows st) j with
+  | None => false
+  | Some b =>
+      match zget (c_pairs cfg) (b_pair b) with
+      | None => false
+      | Some pr => holds_C08_ltv cfg st j && (if pr_inter pr then holds_C08_ltv_brd cfg st j else true)
+      end
+  end.
+(* finding C08-F1 (repaired): a position that hangs on a lend position of ANOTHER asset than the
+   pair's asset in.  BorrowAsset did not compare lendPos.AssetID with pair.AssetIn; with the guard no
+   such position exists (Proofs: Side invariant).  Kept as the regression predicate of the witness. *)
+Definition mismatched_lend (cfg : config) (st : state) (j : Z) : bool :=
+  match zget (borrows st) j with
+  | None => false
+  | Some b =>
+      if b_liq b then false else
       match zget (c_pairs cfg) (b_pair b), zget (lends st) (b_lend b) with
       | Some pr, Some l => negb (l_asset l =? pr_in pr)
       | _, _ => false
@@ -1036,4 +1115,94 @@ Definition holds_C08_pledged (pre post : state) (lid amt : Z) : bool :=
       (0 <=? l_avail l1) && (l_avail l1 =? l_avail l0 + (l_rewards l1 - l_rewards l0) - amt)
   | Some l0, None => pledged (borrows pre) (nborrows pre) lid =? 0
   | None, _ => false
+  end.
+
+(* ------------------------------------------------------------------------------------------ *)
+(* The per-message rules of C08 as statements about (state before, message, state after).     *)
+
+(* BorrowAsset: an existing position of this user and pair is topped up and drawn on (DepositDraw),
+   otherwise a new position is opened under the next id *)
+Definition borrow_rule (cfg : config) (st st' : state) (u pid : Z) : Prop :=
+  if has_borrow_for_pair st u pid
+  then exists j, borrow_id_for_pair st u pid = Some j /\ holds_C08_ltv cfg st' j = true
+  else bctr st' = bctr st + 1 /\ holds_C08_ltv_new cfg st' (bctr st') = true.
+Definition ltv_rule (cfg : config) (st : state) (o : op) (st' : state) : Prop :=
+  match o with
+  | ODraw _ j _ _ _ => holds_C08_ltv cfg st' j = true
+  | OBorrow u _ pid _ _ _ _ _ _ _ => borrow_rule cfg st st' u pid
+  | OBorrowAlt u _ _ _ _ pid _ _ _ _ _ _ _ =>
+      (* [st1]: the state after the lend / deposit half of the message *)
+      exists st1, prices st1 = prices st /\ borrow_rule cfg st1 st' u pid
+  | _ => True
+  end.
+
+Definition borrow_pool_rule (cfg : config) (st : state) (u pid din ain aout : Z) (e1 : biter) : Prop :=
+  if has_borrow_for_pair st u pid
+  then exists bid st1 b0, borrow_id_for_pair st u pid = Some bid /\ deposit_borrow_asset cfg st bid u din ain e1 = Ok st1 /\
+                          zget (borrows st1) bid = Some b0 /\ holds_C08_pool cfg st1 (b_pair b0) aout = true
+  else holds_C08_pool cfg st pid aout = true.
+Definition pool_rule (cfg : config) (st : state) (o : op) : Prop :=
+  match o with
+  | ODraw _ j _ amt _ => exists b0, zget (borrows st) j = Some b0 /\ holds_C08_pool cfg st (b_pair b0) amt = true
+  | OBorrow u _ pid _ din ain _ aout e1 _ => borrow_pool_rule cfg st u pid din ain aout e1
+  | OBorrowAlt u _ _ _ ain pid _ _ aout _ _ e1 _ => exists st1 din, borrow_pool_rule cfg st1 u pid din ain aout e1
+  | _ => True
+  end.
+
+Definition pledged_rule (st : state) (o : op) (st' : state) : Prop :=
+  match o with
+  | OWithdraw _ lid _ amt _ => holds_C08_pledged st st' lid amt = true
+  | OCloseLend _ lid _ =>
+      zget (lends st') lid = None /\
+      match zget (lends st) lid with Some l0 => holds_C08_pledged st st' lid (l_avail l0) = true | None => False end
+  | _ => True
+  end.
+
+(* executable forms of the hypotheses (for the examples) *)
+Definition empty_booksb (st : state) : bool :=
+  is_nil (map fst (lends st)) && is_nil (map fst (borrows st)) && (lctr st =? 0) && (bctr st =? 0) &&
+  forallb (fun ks => let s := snd ks in
+                     (s_lend s =? 0) && (s_bor s =? 0) && (s_sbor s =? 0) && is_nil (s_lids s) && is_nil (s_bids s)) (sstats st).
+Definition cfg_wfb (cfg : config) : bool :=
+  forallb (fun ia => (0 <? a_dec (snd ia)) && (a_id (snd ia) =? fst ia)) (c_assets cfg) &&
+  forallb (fun ir => (0 <=? r_ltv (snd ir)) && (0 <=? r_eltv (snd ir))) (c_rates cfg).
+Definition prices_okb (P : list (Z * Z)) : bool := forallb (fun ap => 0 <=? snd ap) P.
+Definition op_saneb (o : op) : bool := match o with OSetPrice _ (Some p) => 0 <=? p | _ => true end.
+
+(* AvailableToBorrow is an amount: never negative (ids 1 .. counter) *)
+Definition holds_C08_avail (st : state) : bool :=
+  forallb (fun i => match zget (lends st) i with Some l => 0 <=? l_avail l | None => true end) (zseq (nlends st)).
+
+(* known-finding class 2 (C08-F2): a hand-over that exhausts the lend record's AmountIn deletes the
+   record although it still has AvailableToBorrow (accrued rewards raise AvailableToBorrow, not
+   AmountIn; withdrawals lower AmountIn first) or other open positions: their amounts stay in the
+   published TotalLend but belong to no lend position any more *)
+Definition other_open_on (st : state) (lid bid : Z) : bool :=
+  existsb (fun j => negb (j =? bid) &&
+                    match zget (borrows st) j with Some b => (b_lend b =? lid) && negb (b_liq b) | None => false end)
+          (zseq (nborrows st)).
+Definition kf_C08_2 (st : state) (o : op) : bool :=
+  match o with
+  | OHandOver bid d _ =>
+      match zget (borrows st) bid with
+      | Some b0 =>
+          if b_liq b0 then false else
+          match zget (lends st) (b_lend b0) with
+          | Some l => (d =? 1) && (l_in l - b_in b0 <=? 0) && (negb (l_avail l =? 0) || other_open_on st (b_lend b0) bid)
+          | None => false
+          end
+      | None => false
+      end
+  | _ => false
+  end.
+(* a history none of whose messages falls into the class *)
+Fixpoint clean (cfg : config) (st : state) (ops : list op) : Prop :=
+  match ops with
+  | [] => True
+  | o :: r => kf_C08_2 st o = false /\ clean cfg (apply_op cfg st o) r
+  end.
+Fixpoint cleanb (cfg : config) (st : state) (ops : list op) : bool :=
+  match ops with
+  | [] => true
+  | o :: r => negb (kf_C08_2 st o) && cleanb cfg (apply_op cfg st o) r
   end.
